@@ -81,7 +81,11 @@ pub fn case(cfg: &Cfg, index: u64) -> FmtCase {
     } else if seed_no < a + b + c {
         (e2::grammar::source(&mut srng, true), "grammar".to_string(), false)
     } else if seed_no >= a + b + c + d {
-        if seed_no % 2 == 0 { (verbatim_seed(&mut srng), "verbatim".to_string(), false) } else { (textblock_seed(&mut srng), "textblock".to_string(), false) }
+        match seed_no % 5 {
+            | 0 | 2 => (verbatim_seed(&mut srng), "verbatim".to_string(), false),
+            | 1 | 3 => (textblock_seed(&mut srng), "textblock".to_string(), false),
+            | _ => (wide_comment_seed(&mut srng), "widecomment".to_string(), false),
+        }
     } else {
         // small programs: the observation code of E1 nests continuation thunks, and deep nesting is the known
         // exponential case of the formatter
@@ -244,6 +248,37 @@ pub fn textblock_seed(rng: &mut Rng) -> String {
         | 4 => format!("{directive}{}@[doc] let x = 1 in\n{}@[doc] let y = 2 in\n(x, y)\n", block(rng, ""), block(rng, "")),
         | 5 => format!("{directive}fn (a : A) =>\n  do s <- ret (\n{}    @(literal)\n  );\n  ! k s {{\n{}    @(literal) }}\n", block(rng, "    "), block(rng, "    ")),
         | _ => format!("{directive}let t = {{\n{}  @[doc] ret 1\n}} in\n{}@(literal)\n", block(rng, "  "), block(rng, "")),
+    }
+}
+
+/// A multi-line block comment that opens after code on the same line, where the text before the opener contains
+/// characters whose display width is not one column (wide CJK and full-width forms, emoji, combining marks, zero-width
+/// joiners and spaces): the column at which the comment opens is measured when it is captured and again when it is
+/// printed, and the continuation lines are placed relative to it.
+pub fn wide_comment_seed(rng: &mut Rng) -> String {
+    const WIDE: &[&str] = &["漢字", "🙂", "🙂🙂🙂", "ｗｉｄｅ", "e\u{301}", "a\u{300}\u{301}\u{302}", "👨\u{200d}👩\u{200d}👧", "x\u{200b}y", "한글 テキスト", "é", "\u{1F1E9}\u{1F1EA}", "plain"];
+    let w = |rng: &mut Rng| (*rng.pick(WIDE)).to_string();
+    let comment = |rng: &mut Rng| -> String {
+        let n = 1 + rng.below(3);
+        let mut c = format!("/- {}", rng.pick(&["note", "開く", "c1 🙂"]));
+        for i in 0..n {
+            c.push_str(&format!("\n{}{}", " ".repeat(rng.below(12)), rng.pick(&["more", "続き", "x"])));
+            if i + 1 == n && rng.chance(1, 2) {
+                c.push('\n');
+            }
+        }
+        c.push_str(" -/");
+        c
+    };
+    let (a, b, c) = (w(rng), w(rng), comment(rng));
+    match rng.below(7) {
+        | 0 => format!("let x = \"{a}\" {c} in\nx\n"),
+        | 1 => format!("f \"{a}\" {c} y\n"),
+        | 2 => format!("(a, \"{a}\" {c}, \"{b}\")\n"),
+        | 3 => format!("begin\n  let s = \"{a}\" {c} that\n  let t = \"{b}\" that\n  (s, t)\nend\n"),
+        | 4 => format!("match v\n| +A() => \"{a}\" {c}\n| +B() => \"{b}\"\nend\n"),
+        | 5 => format!("/- {a} -/ let y = 1 {c} in\ny\n"),
+        | _ => format!("@[format(width(30))]\nlet x = g \"{a}\" \"{b}\" {c} in\nx\n"),
     }
 }
 
